@@ -267,6 +267,113 @@ func kernelCases(c *Ctx) {
 		c.Case(fmt.Sprintf("ups %s %s %s %s %s %s %s", kind, hex.EncodeToString(ty), byHex, hex.EncodeToString(tu), hex.EncodeToString(tv),
 			hex.EncodeToString(bu), hex.EncodeToString(bv)), res)
 	}
+	// precomputeFilterStrengths: complete sweep of frame level 0..63 (inside each case) x sharpness 0..7 x
+	// delta configurations at their extremes x segment configurations; every run, both tiers
+	{
+		type dcfg struct {
+			use        bool
+			ref0, mod0 int
+		}
+		dcs := []dcfg{{false, 0, 0}}
+		for _, a := range []int{-63, -1, 0, 1, 63} {
+			for _, b := range []int{-63, 0, 1, 63} {
+				dcs = append(dcs, dcfg{true, a, b})
+			}
+		}
+		type scfg struct {
+			use, abs bool
+			v        [4]int
+		}
+		scs := []scfg{{false, false, [4]int{}}, {true, true, [4]int{0, 15, 40, 63}}, {true, true, [4]int{1, 14, 16, 39}},
+			{true, true, [4]int{41, 62, 2, 20}}, {true, false, [4]int{-63, -1, 1, 63}}, {true, false, [4]int{0, -15, 15, -40}}}
+		for sharp := 0; sharp < 8; sharp++ {
+			for di, dc := range dcs {
+				for si, sc := range scs {
+					simple := (sharp+di+si)%2 == 1
+					var sb strings.Builder
+					for level := 0; level < 64; level++ {
+						t := webp.VerifLossyFilterStrengths(simple, level, sharp, dc.use, dc.ref0, dc.mod0, sc.use, sc.abs, sc.v)
+						for s := 0; s < 4; s++ {
+							for k := 0; k < 2; k++ {
+								if level > 0 && t[s][k][3] != k {
+									c.Violate("fstrength-inner", "FInner of the precomputed table is not the i4x4 flag", nil)
+								}
+								fmt.Fprintf(&sb, "%d.%d.%d ", t[s][k][0], t[s][k][1], t[s][k][2])
+							}
+						}
+					}
+					c.D.Evaluations++
+					c.Count("kernel:filter-strength-table")
+					c.Case(fmt.Sprintf("fstr %d %d %d %d %d %d %d %d %d %d %d", b2i(simple), sharp, b2i(dc.use), dc.ref0, dc.mod0,
+						b2i(sc.use), b2i(sc.abs), sc.v[0], sc.v[1], sc.v[2], sc.v[3]), strings.TrimSpace(sb.String()))
+				}
+			}
+		}
+	}
+	// boolean encoder (bitio.BoolWriter) vs the model, incl. sequences that force carries through
+	// runs of 0xff bytes; for PutBit/PutBitUniform-only sequences the model side also decodes
+	// the bytes with the RFC decoder ("rt-ok")
+	for i := 0; i < n/2; i++ {
+		r := rng.Fork()
+		mode := i % 4
+		cnt := r.Pick(0, 1, 2, 7, 30, 200, 1+r.Intn(400))
+		var ops [][3]int
+		var sb strings.Builder
+		sb.WriteString("benc")
+		simple := true
+		for k := 0; k < cnt; k++ {
+			switch {
+			case mode == 0 || (mode == 3 && r.Intn(2) == 0): // random bits and probabilities
+				b, p := r.Intn(2), r.Pick(0, 1, 127, 128, 129, 254, 255, r.Intn(256), r.Intn(256))
+				ops = append(ops, [3]int{0, b, p})
+				fmt.Fprintf(&sb, " b%d:%d", b, p)
+			case mode == 1: // improbable ones: value creeps up to 0xff.. and carries
+				b, p := 1, r.Pick(255, 255, 254, 250, 200)
+				if r.Intn(6) == 0 {
+					b = 0
+				}
+				if r.Intn(10) == 0 {
+					p = r.Intn(256)
+				}
+				ops = append(ops, [3]int{0, b, p})
+				fmt.Fprintf(&sb, " b%d:%d", b, p)
+			case mode == 2 && r.Intn(3) != 0:
+				b := r.Intn(2)
+				ops = append(ops, [3]int{1, b, 0})
+				fmt.Fprintf(&sb, " u%d", b)
+			default:
+				simple = false
+				if r.Bool() {
+					nb := 1 + r.Intn(16)
+					v := r.Intn(1 << uint(nb))
+					ops = append(ops, [3]int{2, v, nb})
+					fmt.Fprintf(&sb, " v%d:%d", v, nb)
+				} else {
+					nb := 1 + r.Intn(7)
+					v := r.Range(-(1<<uint(nb))+1, (1<<uint(nb))-1)
+					ops = append(ops, [3]int{3, v, nb})
+					fmt.Fprintf(&sb, " s%d:%d", v, nb)
+				}
+			}
+		}
+		out := webp.VerifBoolWriterRun(ops)
+		rt := "rt-ok"
+		if !simple {
+			rt = "-"
+		}
+		runs := 0
+		for _, x := range out {
+			if x == 0xff {
+				runs++
+			}
+		}
+		if runs > 0 {
+			c.Count("kernel:boolenc-output-has-0xff")
+		}
+		c.D.Evaluations++
+		c.Count(fmt.Sprintf("kernel:boolenc-mode%d", mode))
+		c.Case(sb.String(), hex.EncodeToString(out)+" "+rt)
+	}
 	// clip tables: complete sweep
 	s1, s2, c1, a0 := webp.VerifDspClipTables()
 	clamp := func(v, lo, hi int) int {
